@@ -23,7 +23,8 @@ pub enum Kind {
     /// raw bytes
     Raw { bytes: Vec<u8>, fix_crc: bool },
     /// `count` copies of the smallest frame of the given kind (0 empty data frame, 1 sync, 2 dud ack, 3 disconnect,
-    /// 4 disconnect-ack, 5 handshake ack), one per server step
+    /// 4 disconnect-ack, 5 handshake ack, 6 empty data frames numbered upwards from the nonce of this address's own
+    /// latest SYN - what a real client's first data frames look like), one per server step
     TinyBurst { kind: u8, count: u16 },
 }
 
@@ -72,7 +73,7 @@ fn kind_strategy() -> impl Strategy<Value = Kind> {
         1 => any::<u32>().prop_map(|nonce| Kind::Ack { nonce }),
         2 => (0u8..8, any::<u32>(), any::<u32>()).prop_map(|(kind, a, b)| Kind::Stray { kind, a, b }),
         1 => (proptest::collection::vec(any::<u8>(), 0..60), any::<bool>()).prop_map(|(bytes, fix_crc)| Kind::Raw { bytes, fix_crc }),
-        3 => (0u8..6, prop_oneof![1u16..20, 20u16..400]).prop_map(|(kind, count)| Kind::TinyBurst { kind, count }),
+        3 => (prop_oneof![3 => 0u8..6, 2 => Just(6u8)], prop_oneof![1u16..20, 20u16..400]).prop_map(|(kind, count)| Kind::TinyBurst { kind, count }),
     ]
 }
 
@@ -114,7 +115,7 @@ impl Check for C18 {
     }
 
     fn rule(&self) -> String {
-        "case = a real Server (limits 1..3 or 200, generated packet-size / allocation settings so that some requests are refused) with generated active-timeout (1 s .. 1 h, or 2^32-1 ms), keepalive and rate settings, and up to five spoofable source addresses sending, in a generated interleaving with waits of 0..25 s and a final wait of up to 12 minutes (so that all SYN-ACK resends and the pending-entry expiry are observed, however the server is configured): well-formed padded SYNs (also wrong version, extreme limits), repeats of the previous SYN, SYN-typed frames of every length below 1472 with a valid checksum, handshake ACKs with arbitrary nonces, frames of every other type, bursts of up to 400 minimum-size frames (10..15 bytes) one per step, raw bytes. No address ever completes the handshake. Oracle after every server step, per address: bytes sent to it are 0 or strictly less than the bytes received from it; a datagram that is not a full-size SYN produces no reply at all, and copies of a SYN-ACK are never less than 2 s apart. Non-trivial = the server sent at least one byte to an unverified address. Distinct = distinct serialised case.".into()
+        "case = a real Server (limits 1..3 or 200, generated packet-size / allocation settings so that some requests are refused) with generated active-timeout (1 s .. 1 h, or 2^32-1 ms), keepalive and rate settings, and up to five spoofable source addresses sending, in a generated interleaving with waits of 0..25 s and a final wait of up to 12 minutes (so that all SYN-ACK resends and the pending-entry expiry are observed, however the server is configured): well-formed padded SYNs (also wrong version, extreme limits), repeats of the previous SYN, SYN-typed frames of every length below 1472 with a valid checksum, handshake ACKs with arbitrary nonces, frames of every other type, bursts of up to 400 minimum-size frames (10..15 bytes) one per step - among them data frames numbered upwards from the nonce of the address's own SYN, as a real client's first frames would be -, raw bytes. No address ever completes the handshake. Oracle after every server step: no address is ever reported as connected; per address: bytes sent to it are 0 or strictly less than the bytes received from it; a datagram that is not a full-size SYN produces no reply at all, and copies of a SYN-ACK are never less than 2 s apart. Non-trivial = the server sent at least one byte to an unverified address. Distinct = distinct serialised case.".into()
     }
 
     fn assumptions(&self) -> Vec<String> {
@@ -152,6 +153,13 @@ impl Check for C18 {
                 if r.from == w.server_addr {
                     *tx.entry(r.to).or_insert(0) += r.bytes.len() as u64;
                 }
+            }
+            // no address in these cases ever returns the nonce the server sent it: none may be reported as connected
+            if let Some((_, t, SEv::Connect(a))) = w.server_events.iter().find(|e| matches!(e.2, SEv::Connect(_))) {
+                return Some(Violation::new(
+                    "oracle:c18:unverified_address_connected",
+                    format!("the server reported Connect({a}) at t={t} us although that address never returned the nonce of a SYN-ACK (from then on it is sent acknowledgements, keepalives and application data without any relation to what it sends)"),
+                ));
             }
             for (a, sent) in tx.iter() {
                 let got = rx.get(a).copied().unwrap_or(0);
@@ -194,15 +202,22 @@ impl Check for C18 {
             let mut full_syn = false;
             if let Kind::TinyBurst { kind, count } = &op.kind {
                 classes.push("tiny_burst");
+                let syn_nonce = last_syn.get(&op.addr).and_then(|b| if let Some(Frame::HandshakeSynFrame(f)) = Frame::read(b) { Some(f.nonce) } else { None });
+                let numbered = *kind == 6;
                 let frame: Vec<u8> = match kind % 6 {
-                    0 => Frame::DataFrame(DataFrame { sequence_id: 0, nonce: false, datagrams: vec![] }).write().to_vec(),
+                    0 => Frame::DataFrame(DataFrame { sequence_id: syn_nonce.filter(|_| numbered).unwrap_or(0), nonce: false, datagrams: vec![] }).write().to_vec(),
                     1 => Frame::SyncFrame(SyncFrame { next_frame_id: None, next_packet_id: None }).write().to_vec(),
                     2 => Frame::AckFrame(AckFrame { frame_window_base_id: 0, packet_window_base_id: 0, frame_acks: vec![] }).write().to_vec(),
                     3 => Frame::DisconnectFrame(DisconnectFrame {}).write().to_vec(),
                     4 => Frame::DisconnectAckFrame(DisconnectAckFrame {}).write().to_vec(),
                     _ => Frame::HandshakeAckFrame(HandshakeAckFrame { nonce_ack: 1 }).write().to_vec(),
                 };
-                for _ in 0..*count {
+                for i in 0..*count {
+                    let frame = if numbered {
+                        Frame::DataFrame(DataFrame { sequence_id: syn_nonce.unwrap_or(0).wrapping_add(i as u32), nonce: false, datagrams: vec![] }).write().to_vec()
+                    } else {
+                        frame.clone()
+                    };
                     w.send_raw(a, w.server_addr, &frame, 0);
                     *rx.entry(a).or_insert(0) += frame.len() as u64;
                     w.advance(step_us.min(20_000));
